@@ -145,6 +145,6 @@ theorem writes_sum (r : Row) (hg : r.good = true) (lp : Loop) (hl : lp.ok = true
     exact C10.biplanar_len _ _ _ _ hs.1 hs.2
 
 theorem normSize_fst_snd (w h : Nat) :
-    normSize w h = if w = 0 ∨ h = 0 then (0, 0) else (w, h) := rfl
+    normView w h = if w = 0 ∨ h = 0 then (0, 0) else (w, h) := rfl
 
 end Dds.EncTotal
